@@ -1,4 +1,5 @@
 import PhysisModel.Base.ParserA
+import PhysisModel.Generated.C18Enums
 /-!
 Fault-tracking models of the grammar-only / header-only asset readers (C18 step 1):
 `src/{uld,sgb,scd,hwc,iwc,tmb,skp,schd,phyb,pap}.rs`, `src/sqpack/db.rs`, `src/exh.rs`,
@@ -7,6 +8,8 @@ Fault-tracking models of the grammar-only / header-only asset readers (C18 step 
 Each reader is the binrw struct, field by field, in declaration order.  The identifier closures
 are the **repaired** ones (`try_map = String::from_utf8(x)…` instead of `map = … .unwrap()`);
 `identUnfixed` keeps the closure as it is at the pinned commit for the witness theorem.
+The discriminant tables of the `repr` / magic enums come from `Generated/C18Enums.lean`, which the
+check regenerates on every run from the **compiled** parsers (T2, exhaustive over the field's domain).
 -/
 namespace Physis.C18Hdr
 open Physis Physis.A
@@ -83,7 +86,7 @@ def u32beNat : P Nat := P.map UInt32.toNat P.u32be
 def schdHeader : P Unit := do
   let _ ← P.u32le
   ident 3
-  let _ ← P.reprEnum u8Nat [0, 1]        -- ShaderStage (unit variants with u8 magics)
+  let _ ← P.reprEnum u8Nat Generated.C18.shaderStages   -- ShaderStage (unit variants with u8 magics)
   let _ ← P.u32le; let _ ← P.u32le; let _ ← P.u32le; let _ ← P.u32le
   pure ()
 def schd (b : Bytes) : Res Unit := P.run schdHeader b
@@ -100,7 +103,7 @@ def phyb (b : Bytes) : Res Unit := P.run phybHeader b
 def papHeader : P Unit := do
   let _ ← P.u32le; let _ ← P.u32le
   let _ ← P.u16le; let _ ← P.u16le
-  let _ ← P.reprEnum u8Nat [0, 1, 2, 3]  -- SkeletonType
+  let _ ← P.reprEnum u8Nat Generated.C18.skeletonTypes  -- SkeletonType
   let _ ← P.u32le
   let _ ← P.u32le; let _ ← P.u32le; let _ ← P.u32le
   pure ()
@@ -112,12 +115,12 @@ def sqpackMagic : Bytes := [0x53, 0x71, 0x50, 0x61, 0x63, 0x6b, 0, 0]
 /-- returns `size` -/
 def sqpackHeader : P Nat := do
   P.magic sqpackMagic
-  let _ ← P.padSizeTo 4 (P.reprEnum u8Nat [0, 1, 2, 3, 4])   -- Platform
+  let _ ← P.padSizeTo 4 (P.reprEnum u8Nat Generated.C18.platformIds)   -- Platform
   let size ← u32leNat
   let _ ← P.u32le                                             -- version
-  let _ ← P.padSizeTo 4 (P.reprEnum u8Nat [0, 1, 2])          -- SqPackFileType
+  let _ ← P.padSizeTo 4 (P.reprEnum u8Nat Generated.C18.sqpackFileTypes)          -- SqPackFileType
   let _ ← P.u32le; let _ ← P.u32le                            -- unk1, unk2
-  let _ ← P.padSizeTo 4 (P.reprEnum u16leNat [65535, 1])      -- Region (repr i16: -1, 1)
+  let _ ← P.padSizeTo 4 (P.reprEnum u16leNat Generated.C18.regionIds)      -- Region (repr i16: -1, 1)
   P.skip 924
   let _ ← P.bytes 20
   P.skip 44
@@ -178,8 +181,7 @@ def exhHeader : P ExhHeader := do
   pure ⟨dataOffset, columnCount, pageCount, languageCount, rowCount⟩
 
 /-- `ColumnDataType` discriminants -/
-def columnTypes : List Nat :=
-  [0, 1, 2, 3, 4, 5, 6, 7, 9, 10, 11, 0x19, 0x1A, 0x1B, 0x1C, 0x1D, 0x1E, 0x1F, 0x20]
+def columnTypes : List Nat := Generated.C18.columnTypes
 
 structure Column where
   dataType : Nat
@@ -202,7 +204,7 @@ def exhFile : P Exh := do
   let h ← exhHeader
   let cols ← P.count h.columnCount columnDef
   let _ ← P.count h.pageCount pageDef
-  let _ ← P.count h.languageCount (P.reprEnum u8Nat [0, 1, 2, 3, 4, 5, 6, 7])
+  let _ ← P.count h.languageCount (P.reprEnum u8Nat Generated.C18.languageIds)
   pure ⟨h, cols⟩
 def exh (b : Bytes) : Res Exh := P.run exhFile b
 
